@@ -539,10 +539,10 @@ let handle (req : sexp) : String.t =
       (* Line.parse_body on the physical lines of the body of a headed expressions block (line feeds inside parentheses join,
          comment and blank lines are skipped) against the sequence of (name, expression) Lark reads in that block; "statements" =
          the number of logical lines that are neither comment nor blank (the caller compares only blocks where this is the number of
-         assignments Lark found: a line broken behind an operator outside parentheses is outside the line model) *)
+         assignments Lark found: a layout the line model does not know) *)
       let ls = List.map (fun l -> cs (atom l)) (lst lines) in
       let exp = List.map (function L [A n; e] -> (n, expr_of e) | _ -> bad "parseblock expected") (lst expected) in
-      let stmts = List.length (List.filter (fun l -> not (skipped l)) (logical O EmptyString ls)) in
+      let stmts = List.length (List.filter (fun l -> not (skipped l)) (logical O false EmptyString ls)) in
       (match parse_body ls with
        | None -> jobj ["status", jstr "ok"; "verdict", jstr "model-rejects"; "statements", string_of_int stmts]
        | Some got ->
